@@ -10,7 +10,7 @@
 
 #include <stdalign.h>
 
-const uint64_t c_overhead = overhead;
+const ubounded c_overhead = overhead;
 
 const size_t c_sizeof_uchar = sizeof(unsigned char);
 const size_t c_sizeof_int = sizeof(int);
